@@ -11,7 +11,7 @@ from __future__ import annotations
 from .. import nf
 from ..model import AnalysisError
 from ..values import Num
-from .common import FP, only, returns, run
+from .common import strip_forwarded_options, FP, only, returns, run
 from .multiphase import P_, PHI, SO, SW, mobility, storage
 
 LEVEL = "other"
@@ -26,6 +26,49 @@ def _step_atoms(p):
             if nf.is_const(d):
                 out.setdefault(nf.cval(d), set()).add(a)
     return out
+
+
+def _symbolic_steps(p):
+    """{key(offset NF): offset NF} of the table-interpolator atoms X(pressure + d) whose offset d is free of pressure"""
+    out = {}
+    for a in nf.atoms(p):
+        if a[0] == "fn" and a[1].startswith("[](") and len(a[2]) == 1:
+            d = nf.sub(nf.unkey(a[2][0]), P_)
+            if d and not nf.is_const(d) and all(a_[0] == "sym" and a_[1].endswith("@option") for a_ in nf.atoms(d)):
+                out[nf.key(d)] = d  # a multiple of an option of the function (bound by an option context, 9.3d)
+    return out
+
+
+def _symbolic_stencil(ctx, q, f, E):
+    offs = list(_symbolic_steps(E).values())
+    ok = len(offs) == 2 and nf.is_zero(nf.add(offs[0], offs[1]))
+    ctx.check(
+        ok, "C16-b", q + ":stencil", f.where(),
+        "table properties are evaluated at exactly two points pressure - h and pressure + h",
+        signature="stencil points", offsets=[nf.show(h, 60) for h in offs],
+    )
+    if not ok:
+        return
+    h = offs[0]
+    ctx.assume("a symbolic difference half-width (an option of the function) is non-zero")
+
+    def swap(a):
+        if a[0] == "fn" and a[1].startswith("[](") and len(a[2]) == 1:
+            d = nf.sub(nf.unkey(a[2][0]), P_)
+            if nf.key(d) in (nf.key(offs[0]), nf.key(offs[1])):
+                return nf.fn(a[1], nf.sub(P_, d))
+        return None
+
+    ctx.identity(
+        "C16-a", q + ":antisymmetry", f.where(),
+        "exchanging the evaluation points p+h and p-h negates the result (a difference, not a sum: zero for pressure-independent tables)",
+        nf.add(E, nf.subst(E, swap)), {},
+    )
+    ctx.identity(
+        "C16-b", q + ":storage", f.where(),
+        "result * 2h == S(p+h) - S(p-h) with S the documented stored mass per unit volume, Sg = 1 - So - Sw",
+        nf.mul(E, nf.scale(h, 2)), nf.sub(storage(nf.add(P_, h)), storage(nf.sub(P_, h))), step_2h=nf.show(nf.scale(h, 2), 60),
+    )
 
 
 def _it_nf(v):
@@ -50,11 +93,16 @@ def check(ctx):
     steps = _step_atoms(E)
     hs = sorted(steps)
     ok_steps = len(hs) == 2 and hs[0] == -hs[1] and hs[1] > 0
-    ctx.check(
-        ok_steps, "C16-b", q + ":stencil", f.where(),
-        "table properties are evaluated at exactly two points pressure - h and pressure + h",
-        signature="stencil points", offsets=[str(h) for h in hs],
-    )
+    if not steps and _symbolic_steps(E):
+        # the half-width is an option (a symbol, not a literal): the same rules with h symbolic and the division explicit
+        _symbolic_stencil(ctx, q, f, E)
+        ok_steps = False
+    else:
+        ctx.check(
+            ok_steps, "C16-b", q + ":stencil", f.where(),
+            "table properties are evaluated at exactly two points pressure - h and pressure + h",
+            signature="stencil points", offsets=[str(h) for h in hs],
+        )
     if ok_steps:
         h = hs[1]
 
@@ -122,7 +170,7 @@ def check(ctx):
     ctx.identity(
         "C16-e", qa + ":return", fa.where(),
         "alpha_multiphase == lambda_combined_func(pressure, So, pvt, kr) / compressibility_combined_func(pressure, So, phi, Sw, pvt)",
-        A.nf if isinstance(A, Num) else nf.sym("?"), nf.div(lam, cmp_),
+        strip_forwarded_options(A.nf, {q, ql}) if isinstance(A, Num) else nf.sym("?"), nf.div(lam, cmp_),
     )
     from .common import check_interp_options
 
